@@ -15,7 +15,12 @@ PROP = {
              "huge roots count equal to / below the cells count, over generic/index/cache/CRC flags and both lean "
              "magics, followed by 0..40 body bytes; family 'sharing': valid BOCs of 5..60 cells whose DAG has up to "
              "4^59 paths (each cell referencing the next one 1..4 times, lattices i -> i+1..i+w for w=2,3,4, layered "
-             "diamonds, random multiplicities). Compared with the model: outcome class and, per root, hash, depth, "
+             "diamonds, random multiplicities); family 'sharing-exotic': the same shapes (6..60 cells) in which the cells "
+             "are exotic-typed - d1 = refs + 8 + 32*mask for masks 1..7, first data byte 0x01 pruned branch, 0x02 "
+             "library, 0x03 Merkle proof, 0x04 Merkle update, 0x00, 0xff, payload length valid for the type / type "
+             "byte only / one byte short / one byte long / not byte aligned / random, on all inner cells, every "
+             "second one, a random half, or all cells (the parser does not validate exotic cells, so it returns "
+             "them with their references). Compared with the model: outcome class and, per root, hash, depth, "
              "level, bit size, ref count, exotic flag, type (a makeslice panic, a fatal out-of-memory or a hang of "
              "the child is a class mismatch). Oracles on the implementation, all evaluated in the child (an input "
              "that crashed, hung or panicked there is reported and never executed again): (a) no crash/timeout/"
@@ -28,10 +33,16 @@ PROP = {
              "print-unbounded), ToString prints at most 2*65536+8*cells+2 lines (cells = distinct cells under the "
              "root; the visit budget BOCSizeLimit=65536 allows 65537+3*depth, theorem C07_print_bounded: <= 262145 "
              "for every DAG; measured maximum 65697) and at most cells+264 bytes per line, ToBoc output is at most "
-             "2*len+64 bytes and re-parses. The number of "
+             "2*len+64 bytes and re-parses; (e) for the sharing families, before anything else touches the input: Hash + "
+             "ToBoc + re-parse of every parsed root (exec c07.hash in the child, 10 s) terminate - keys hash-timeout, "
+             "hash-unbounded - and their TotalAlloc delta is at most 16384*cells+131072 bytes, cells = distinct cells "
+             "under the root (key hash-out-of-proportion: the hash cache of newImmutableCell keeps the work linear in "
+             "the cells although the DAG has up to 4^59 paths; measured on the unchanged tree: at most 2.7 kB per "
+             "cell, 14.2 kB for roots of <= 8 cells, 1.5 ms per call; a Hash() error for a malformed exotic payload is "
+             "accepted). The number of "
              "lines ToString prints for the sharing family is compared with the Coq model of the budgeted "
              "traversal (kind c07.lines; the comparison is enabled). A class is (stream, position/size bucket, outcome); oracle-only evaluations are counted "
-             "as c07.alloc|... and c07.print|... classes."),
+             "as c07.alloc|..., c07.print|... and c07.hash|... classes."),
     'explanation': ("coq/Properties/C07.v: the model of the (repaired) parser never returns Panic, allocates at most "
                     "640*len bytes in its modelled make() calls, and every successful parse yields cells with <= 1023 "
                     "bits, <= 4 refs, references strictly forward and in range, roots in range, so that the unfolding "
